@@ -201,7 +201,8 @@ def load_known_findings():
 def write_replay(check, seed, tier, res, violation, case, minimised, env, binary_sha):
     d = os.path.join(VERIF, "replays")
     os.makedirs(d, exist_ok=True)
-    path = os.path.join(d, "%s-%d.json" % (check.ID, res["case_seed"]))
+    tag = hashlib.sha256(violation["key"].encode()).hexdigest()[:6]
+    path = os.path.join(d, "%s-%d-%s.json" % (check.ID, res["case_seed"], tag))
     doc = {
         "property": check.ID, "engine": check.ENGINE, "module": check.__name__,
         "verif_seed": seed, "tier": tier, "case_index": res["index"], "case_seed": res["case_seed"],
